@@ -152,6 +152,16 @@ def eval_invalid(case):
         with np.errstate(all="ignore"):
             relative_permeabilities(sat, RelPermParams(**base))
     except Exception:  # noqa: BLE001 - "rejected with an error", whatever its type
+        if case["field"] in base and not case["field"].startswith("sum"):
+            # the same inadmissible parameter set handed to the two-phase table helper is rejected as well
+            from bluebonnet.flow.flowproperties import relative_permeabilities_twophase  # noqa: PLC0415
+            try:
+                with np.errstate(all="ignore"):
+                    relative_permeabilities_twophase(RelPermParams(**base), 0.05)
+            except Exception:  # noqa: BLE001
+                return {"violations": [], "evals": 2, "outcome": "rejected"}
+            return {"violations": [V("invalid/accepted-by-helper", f"{case['field']}={case['value']} is rejected by relative_permeabilities "
+                                     "but accepted by relative_permeabilities_twophase", case=case)], "evals": 2, "outcome": "accepted"}
         return {"violations": [], "evals": 1, "outcome": "rejected"}
     return {"violations": [V("invalid/accepted", f"{case['field']}={case['value']} was accepted", case=case)],
             "evals": 1, "outcome": "accepted"}
